@@ -5,6 +5,7 @@ import Holpy.C17.Rename
 import Holpy.C17.ExplainSpecProofs
 import Holpy.C17.HolTheorems
 import Holpy.C17.ExplainTotal
+import Holpy.C17.ExplainTotalFull
 /-
 C17 — property theorems about the model of `prover/congc.py: CongClosure` (`Model.lean`).
 `run ops` is the structure after the operations `ops` (`add_var` / `merge(a, b)` /
@@ -191,13 +192,10 @@ theorem proof_forest_wellformed (ops : List Op) : ForestInv (run ops) :=
 example : (run [.mergeC 1 2, .mergeC 3 2, .mergeC 4 3]).forest =
     [(2, none), (1, some (2, .const 1 2)), (3, some (2, .const 3 2)), (4, some (3, .const 4 3))] := by rfl
 
-/-- `explain` is total up to its recursion bound (PARTIAL: what is missing for `explain_total` is that the
-recursion through application labels is well founded within `len(proof_forest) + 1` levels -- the
-time-stamp argument of Nieuwenhuis-Oliveras; the harness reports any failing `explain` on a valid equality
-as a violation).  For two entered constants that `test` reports equal: `cur_path` is computed (no KeyError, no
-`assert`, the walks to the root finish), and whatever the recursion bound and the memo dictionary, `explain`
-and all its recursive calls can only fail by exhausting that bound. -/
-theorem explain_total_partial (ops : List Op) (a b : Cst) (h : test (run ops) a b = .ok true) :
+/-- Whatever the recursion bound and the memo dictionary, `explain` on two constants that `test` reports
+equal can only fail by exhausting the bound: `cur_path` is always computed (no KeyError, no `assert`, the
+walks to the root finish), also in all recursive calls. -/
+theorem explain_fails_only_by_depth (ops : List Op) (a b : Cst) (h : test (run ops) a b = .ok true) :
     (∃ p, curPath (run ops).forest a b = .ok p) ∧
     ∀ fuel res e, explain (run ops).forest fuel a b res = .error e → e = .fuel := by
   have F := run_forest ops
@@ -213,6 +211,32 @@ theorem explain_total_partial (ops : List Op) (a b : Cst) (h : test (run ops) a 
   · cases h
 
 example : ∃ p, curPath (run [.mergeF 1 2 3, .mergeF 4 5 6, .mergeC 1 4, .mergeC 2 5]).forest 3 6 = .ok p := ⟨_, rfl⟩
+
+/-- `explain` is total: in every reachable state, for constants `a`, `b` with `test(a, b) == True`,
+`explain(a, b)` returns a dictionary -- no KeyError, no `assert`, and the model's bounds are never hit:
+every walk to the root takes at most `len(proof_forest)` steps and the recursion through application
+labels is at most `len(proof_forest) + 1` deep (`len(proof_forest)` = number of entered constants).
+The recursion is well founded because an application label on the path between two constants was added
+by a union no later than the one that joined the two constants, and its argument pairs were joined by
+strictly earlier unions (time stamps; `TimeInv.lean`). -/
+theorem explain_total (ops : List Op) (a b : Cst) (h : test (run ops) a b = .ok true) :
+    ∃ res, explainTop (run ops) a b = .ok res := by
+  have F := run_forest ops
+  have A := argsOK_of (run_sound ops) (run_complete ops) (run_pending_nil ops)
+  obtain ⟨T, now, TI, b1, b2⟩ := (run_time ops).time
+  unfold test at h
+  split at h
+  · next ra rb h1 h2 =>
+    simp only [Except.ok.injEq, decide_eq_true_eq] at h
+    have da : Dom (run ops) a := ⟨ra, h1⟩
+    have db : Dom (run ops) b := ⟨rb, h2⟩
+    have hab : repOf (run ops) a = repOf (run ops) b := by rw [repOf_of_get h1, repOf_of_get h2, h]
+    unfold explainTop
+    exact explain_succeeds F A TI _ a b [] da db hab (by have := TI.le a b; omega)
+  · cases h
+
+/- non-vacuity: a nested explanation (3 = 6 needs 1 = 4 and 2 = 5 first). -/
+example : ∃ res, explainTop (run [.mergeF 1 2 3, .mergeF 4 5 6, .mergeC 1 4, .mergeC 2 5]) 3 6 = .ok res := ⟨_, rfl⟩
 
 /-- `specTest eqs a b` (merge exactly the equations `eqs` into an empty structure and ask) decides the
 congruence closure of a finite list of equations: the executable form of the specification `Cl`. -/
